@@ -414,7 +414,7 @@ impl Check for C15 {
         vec!["uuid/chrono key types are feature-gated and not covered".into(), "the reference order is Rust's Ord on the mirrored owned value (numeric, scalar value for char, lexicographic for str/slices/arrays/tuples, None < Some)".into()]
     }
     fn fuzz_runs(&self) -> u64 {
-        4_000_000
+        1_200_000
     }
     fn plan(&self, tier: Tier) -> Plan {
         Plan { cases: tier.pick(100_000, 3_000_000), max_recs: 64, max_shrink_iters: 5000, workers: 16 }
